@@ -162,6 +162,11 @@ def conventional_small(rnd):
             lines.append(b"[" + rnd.choice(["A", "B", "C c"]).encode() + b"]")
         elif x < 0.3:
             lines.append(b"# note")
+        elif x < 0.42:
+            # a key without delimiter: stored without a value (after an entry the same text continues that entry's value)
+            lines.append(rnd.choice(KEYS[:5]).encode())
+        elif x < 0.47:
+            lines.append(rnd.choice(KEYS[:5]).encode() + b"=" + rnd.choice(VALS).encode() + b" # why")
         else:
             k = rnd.choice(KEYS[:5]).encode()
             v = rnd.choice(VALS).encode()
@@ -288,6 +293,7 @@ class Hist:
                 self.add("merge 9 %d %d" % (a, b), lambda ev: [{"e": "query"}])
                 self.script.append("free 9")
                 self.plan.append(None)
+                self.dump(o)          # the OTHER input of the merge must be untouched as well
             else:
                 self.add("errstring %d" % r.randint(0, 30), lambda ev: [{"e": "query"}])
 
@@ -454,10 +460,16 @@ def check(pid, tier, seed):
         n = 250 if tier == "quick" else 4000
         hists = [random_history(rnd, "c10-%d" % i, rnd.randint(3, 30), query_heavy=True) for i in range(n)]
         acc = run_histories(exe, hists, verdict, "C10")
+        # use as an input of a merge, systematically: every pair of the Merge universe (TLC export, lists of <= 2 entries) as
+        # parsed files whose first keys have no value; the full extended dump of BOTH inputs before and after the call
+        from . import p_merge
+        rm, recsm, _ = export("MC_Merge", {"MaxLen": 2, "Export": "TRUE", "Hdr": "FALSE"}, ["MergeIsRef"], seed=seed)
+        nmerge = p_merge.inputs_unchanged(exe, [(x["b"], x["o"]) for x in recsm], verdict, "C10")
+        acc += nmerge
         nq = sum(1 for h in hists for l in h.script if l.split()[0] in ("get", "getdef", "keys", "groups", "ext", "path", "tags", "write", "merge"))
         cov = {"states": mc.distinct, "transitions": mc.generated, "traces_validated_against_impl": acc,
                "evaluations": nq, "distinct_nontrivial": sum(1 for h in hists if any(l.startswith("get Bool") or l.startswith("getdef Bool") or l.startswith("get Int") for l in h.script)),
-               "rule": "%d random query sequences (3..30 calls) on parsed and built objects holding mixed-case / non-boolean / numeric / empty / absent values: getters of all 8 types with and without default (incl. failing ones), key and section listings, extended getter, path, tags, econf_writeFile, use as either input of econf_mergeFiles; after EVERY call the object is dumped in full (listing, values as stored, comments, line numbers, value lists, bytes of a fresh write); Trace_KeyFile accepts a query only if listing and full-dump fingerprint are unchanged since the last setter. In the model queries are UNCHANGED objs by construction (KeyFile.tla); %d query calls validated. non-trivial = sequence with a Bool or Int getter." % (len(hists), nq),
+               "rule": "%d random query sequences (3..30 calls) on parsed and built objects holding mixed-case / non-boolean / numeric / empty / absent values: getters of all 8 types with and without default (incl. failing ones), key and section listings, extended getter, path, tags, econf_writeFile, use as either input of econf_mergeFiles; after EVERY call the object is dumped in full (listing, values as stored, comments, line numbers, value lists, bytes of a fresh write); Trace_KeyFile accepts a query only if listing and full-dump fingerprint are unchanged since the last setter. In the model queries are UNCHANGED objs by construction (KeyFile.tla); %d query calls validated. Merge as a query, systematically: %d pairs of parsed files (every pair of entry lists of length <= 2 over {group-less,A,B} x {x,y} exported by TLC from MC_Merge, first key of the file / of each section without a value): the extended dump of both inputs is identical before and after econf_mergeFiles. non-trivial = sequence with a Bool or Int getter." % (len(hists), nq, nmerge),
                "samples": [hists[0].script[:12]], "exhaustive": False,
                "trusted_base": ["TLC 1.8.0", "gcc ASan/UBSan", "drv.c"]}
     rc = verdict.finish()
